@@ -12,14 +12,20 @@
       `construction_covers_every_valid_interaction` hold for EVERY queue, hence for every run of the
       real code whose recorded choices replay to the same sample — which the harness checks on every
       run (`q twgen`: same configurations in the same order, no recorded choice rejected, none left).
-  (2) Any sample (plain or fitness-guided): soundness of the checker `TWise.check` that the driver
-      runs on every sample the real code returns.  For the fitness-guided variant
-      (`ExtendedDdnnf::sample_t_wise`: attribute mergers, best-configuration completion) this is the only
-      layer: validation of each output by a verified checker, not a proof of that construction.
+  (1b) The fitness-guided construction (`ExtendedDdnnf::sample_t_wise`: `AttributeZippingMerger`,
+      `AttributeSimilarityMerger`, `cover_with_caching_sorted`, `complete_partial_configs_optimal`):
+      `TW.runA nodes n t q`.  The fitness values are floats and are only ever compared; every comparison
+      result (`merge_sorted_configs`, the repositioning in `cover_with_caching_sorted`, the order in
+      which the cross interactions are covered) and the completion `calc_best_config` picks are entries
+      of the queue, so `fitness_guided_construction_*` hold for every fitness vector there is.
+  (2) Any sample: soundness of the checker `TWise.check` that the driver also runs on every sample the
+      real code returns (a second, independent layer).
 -/
 import DdnnfVerif.Proofs.TWise
 import DdnnfVerif.Proofs.TW.Root
 import DdnnfVerif.Proofs.TW.EndToEnd
+import DdnnfVerif.Proofs.TW.RootA
+import DdnnfVerif.Proofs.TIter
 import DdnnfVerif.Proofs.WFCheck
 namespace Ddnnf.C09
 open Ddnnf.TWise
@@ -59,6 +65,49 @@ run on it (any queue) and `t = 2` the sample consists of models only -/
 example (q : TW.Queue) : ∀ c ∈ (TW.run smallEx 4 2 q).configs, Complete 4 c ∧ ∃ m ∈ models smallEx (rootIx smallEx), m.Perm c :=
   construction_returns_only_models smallEx 4 (wfB_sound _ _ (by decide)) (litUniqueB_sound _ (by decide))
     2 (by decide) q
+
+/-! ### (1b) the fitness-guided construction -/
+
+/-- Whatever the fitness values are (whatever every comparison of objective values answers, whichever
+completion `calc_best_config` picks), and whatever is trimmed and in which order it is re-covered:
+every configuration the fitness-guided construction returns decides every feature and is a model. -/
+theorem fitness_guided_construction_returns_only_models (nodes : List NType) (n : Nat) (h : WF nodes n)
+    (hu : LitUnique nodes) (t : Nat) (ht : 1 ≤ t) (q : TW.Queue) :
+    ∀ c ∈ (TW.runA nodes n t q).configs, Complete n c ∧ ∃ m ∈ models nodes (rootIx nodes), m.Perm c :=
+  TW.runA_valid nodes n h hu t ht q
+
+/-- … and every set of `t` literals over distinct features that is contained in at least one model is
+contained in at least one configuration it returns. -/
+theorem fitness_guided_construction_covers_every_valid_interaction (nodes : List NType) (n : Nat)
+    (h : WF nodes n) (hu : LitUnique nodes) (t : Nat) (ht : 1 ≤ t) (q : TW.Queue)
+    (I : List Int) (hlen : I.length = t) (hrange : ∀ l ∈ I, l ≠ 0 ∧ l.natAbs ≤ n)
+    (hdistinct : (I.map Int.natAbs).Nodup) (hsat : 0 < specCount nodes n I) :
+    ∃ c ∈ (TW.runA nodes n t q).configs, ∀ l ∈ I, l ∈ c :=
+  TW.runA_covers nodes n h hu t ht q I hlen hrange hdistinct hsat
+
+theorem fitness_guided_construction_on_unsatisfiable_model_returns_nothing (nodes : List NType) (n : Nat)
+    (h : WF nodes n) (hzero : count nodes (rootIx nodes) = 0) (t : Nat) (q : TW.Queue) :
+    (TW.runA nodes n t q).configs = [] :=
+  TW.runA_void_of_unsat nodes n h hzero t q
+
+/-- end to end for d4 texts -/
+theorem d4_end_to_end_fitness_guided_twise_only_models : type_of% @D4.loaded_twiseA_only_models :=
+  @D4.loaded_twiseA_only_models
+theorem d4_end_to_end_fitness_guided_twise_covers : type_of% @D4.loaded_twiseA_covers := @D4.loaded_twiseA_covers
+
+example (q : TW.Queue) : ∀ c ∈ (TW.runA smallEx 4 2 q).configs, Complete 4 c ∧ ∃ m ∈ models smallEx (rootIx smallEx), m.Perm c :=
+  fitness_guided_construction_returns_only_models smallEx 4 (wfB_sound _ _ (by decide)) (litUniqueB_sound _ (by decide))
+    2 (by decide) q
+
+/-! ### the interaction iterator -/
+
+/-- The state machine of `t_iterator.rs` (`Model/TIter.lean`: `new`, `advance` with its carry and repair
+loops, `get`, drained until `None`) yields exactly the list the construction models use
+(`TW.tIter literals t`: the `t`-sublists in lexicographic position order, each listed from the largest
+position down), for every list of literals and every `t` not larger than its length. -/
+theorem interaction_iterator_enumerates_the_sublists (lits : List Int) (t : Nat) (h : t ≤ lits.length) :
+    TI.interactions lits t = TW.tIter lits t :=
+  TI.interactions_eq lits t h
 
 /-! ### (2) the checker -/
 
